@@ -1073,6 +1073,16 @@ class Choice(object):
                 taglist.append(tag)
                 break
 
+            elif isinstance(value, list) and \
+                    ((element.klass in _sequence_of_classes) or (element.klass in _list_of_classes)):
+                # a list of values, the helper does the encoding
+                if element.context is not None:
+                    taglist.append(OpeningTag(element.context))
+                element.klass(value).encode(taglist)
+                if element.context is not None:
+                    taglist.append(ClosingTag(element.context))
+                break
+
             elif isinstance(value, element.klass):
                 # encode an opening tag
                 if element.context is not None:
@@ -1114,8 +1124,8 @@ class Choice(object):
                 # check for context encoding
                 if element.context is None:
                     raise NotImplementedError("choice of a SequenceOf must be context encoded")
-                # match the context tag number
-                if tag.tagClass != Tag.contextTagClass or tag.tagNumber != element.context:
+                # match the opening tag number
+                if tag.tagClass != Tag.openingTagClass or tag.tagNumber != element.context:
                     continue
                 taglist.Pop()
 
